@@ -156,3 +156,57 @@ def run(prog, rep, props_note=''):
     if entries < 13:
         raise AnalysisBroken('R-VAL: only %d named-create entry points found (13 confirmed by hand)' % entries)
     return rule
+
+
+def run_link_first(prog, rep):
+    """R-LINKFIRST (C12i): inside H5Group, whether a child 'exists' is answered by the link test (hasObject -> H5Lexists) - the
+    test the duplicate-name checks use - before the name is opened by path: every call of objectOfType / H5Oopen on a name is
+    reached only where hasObject(<same name>) is known to be true.  H5Oopen resolves paths ('.', 'a/..'), H5Lexists answers for
+    links: without the guard 'has' and 'create' disagree for such names and a creating constructor re-identifies an existing group."""
+    from ..sem import term, unwrap, real_args
+    rule = rep.rule('R-LINKFIRST', 'H5Group opens a child by name (objectOfType / H5Oopen) only under a true hasObject(name) link test', floor=2)
+    n = 0
+    for f in sorted(prog.methods_of('nix::hdf5::H5Group'), key=lambda f: (f.file, f.line)):
+        if f.body is None or f.cfg is None:
+            continue
+        for c in f.calls():
+            nm = c.callee.get('name')
+            if nm not in ('objectOfType', 'H5Oopen'):
+                continue
+            args = real_args(c)
+            narg = args[0] if nm == 'objectOfType' else (args[1] if len(args) > 1 else None)
+            if narg is None:
+                continue
+            base = unwrap(narg)
+            # H5Oopen(hid, name.c_str(), ..): the name variable under .c_str()
+            while base is not None and base.k == 'call' and base.get('member') and (base.callee or {}).get('name') in ('c_str', 'data') and base.c:
+                base = unwrap(base.c[0])
+            if base is None or base.k != 'ref':
+                continue
+            lid = base.decl.get('lid')
+            n += 1
+            x = c
+            while x is not None and f.cfg.pos.get(x.id) is None:
+                x = x.p
+            guards = f.cfg.guards_at(x.id) if x is not None else []
+            ok = False
+            for gid, pol in guards or []:
+                g = f.nodes.get(gid)
+                if g is None or not pol:
+                    continue
+                g = unwrap(g)
+                if g.k == 'call' and (g.callee or {}).get('name') == 'hasObject':
+                    ga = real_args(g)
+                    r = unwrap(ga[0]) if ga else None
+                    if r is not None and r.k == 'ref' and r.decl.get('lid') == lid:
+                        ok = True
+            # objectOfType itself may open the name it is given: its callers carry the obligation
+            if nm == 'H5Oopen' and f.name == 'objectOfType':
+                rule.ok('%s|%s|delegated' % (f.q, nm), rep.where(c), f.label(), 'opened inside objectOfType: the guard is checked at its call sites')
+                continue
+            rule.check(ok, '%s|%s' % (f.q, nm), rep.where(c), f.label(), 'reached only where hasObject(%s) holds' % base.decl.get('name'),
+                       '%s(%s) is not guarded by hasObject(%s): H5Oopen follows paths (".", "x/..") that are not links, so hasGroup/hasData can be true for a '
+                       'name the duplicate test (H5Lexists) reports as free - the creating constructor then writes a new entity_id onto an existing group' % (nm, base.decl.get('name'), base.decl.get('name')))
+    if n < 3:
+        raise AnalysisBroken('R-LINKFIRST: only %d open-by-name sites found in H5Group' % n)
+    return rule
